@@ -63,3 +63,78 @@ func TestVerifReplayAddOnOccupiedStore(t *testing.T) {
 		t.Fatalf("final placement is not the requested one: %v", region.GetMeta())
 	}
 }
+
+// Sweep: every origin/target role assignment over 4 stores (absent, voter, learner), every origin leader, without joint
+// consensus.  Used as the replay search for obligations of the builder's step-by-step path: the first request whose
+// operator has a step that is refused when its turn comes (or that adds on an occupied store, or that ends anywhere
+// but at the requested placement) is reported.
+func TestVerifReplayBuilderSweep(t *testing.T) {
+	ctx, cancel := context.WithCancel(context.Background())
+	defer cancel()
+	tc := mockcluster.NewCluster(ctx, config.NewTestOptions())
+	tc.DisableFeature(versioninfo.JointConsensus)
+	for i := uint64(1); i <= 4; i++ {
+		tc.AddRegionStore(i, 0)
+	}
+	const stores = 4
+	pow := 1
+	for i := 0; i < stores; i++ {
+		pow *= 3
+	}
+	cases := 0
+	for oc := 0; oc < pow; oc++ {
+		var origin []*metapb.Peer
+		for s, c := uint64(1), oc; s <= stores; s, c = s+1, c/3 {
+			switch c % 3 {
+			case 1:
+				origin = append(origin, &metapb.Peer{Id: 10 + s, StoreId: s})
+			case 2:
+				origin = append(origin, &metapb.Peer{Id: 10 + s, StoreId: s, Role: metapb.PeerRole_Learner})
+			}
+		}
+		for _, leader := range origin {
+			if core.IsLearner(leader) {
+				continue
+			}
+			for tcode := 0; tcode < pow; tcode++ {
+				target := map[uint64]*metapb.Peer{}
+				for s, c := uint64(1), tcode; s <= stores; s, c = s+1, c/3 {
+					switch c % 3 {
+					case 1:
+						target[s] = &metapb.Peer{StoreId: s}
+					case 2:
+						target[s] = &metapb.Peer{StoreId: s, Role: metapb.PeerRole_Learner}
+					}
+				}
+				region := core.NewRegionInfo(&metapb.Region{Id: 1, Peers: origin}, leader)
+				op, err := NewBuilder("replay", tc, region).SetPeers(target).Build(0)
+				if err != nil {
+					continue
+				}
+				cases++
+				for i := 0; i < op.Len(); i++ {
+					step := op.Step(i)
+					if err := step.CheckSafety(region); err != nil {
+						t.Fatalf("origin %v leader %d target %v: step %d (%v) of %v is refused when its turn comes: %v", origin, leader.StoreId, target, i, step, op, err)
+					}
+					if add, ok := step.(AddLearner); ok {
+						if p := region.GetStorePeer(add.ToStore); p != nil {
+							t.Fatalf("origin %v leader %d target %v: step %d (%v) adds a peer on store %d which still holds peer %d", origin, leader.StoreId, target, i, step, add.ToStore, p.GetId())
+						}
+					}
+					region = verifApplyStep(t, region, step)
+				}
+				if len(region.GetPeers()) != len(target) {
+					t.Fatalf("origin %v leader %d target %v: final placement %v", origin, leader.StoreId, target, region.GetMeta())
+				}
+				for s, p := range target {
+					q := region.GetStorePeer(s)
+					if q == nil || core.IsLearner(q) != core.IsLearner(p) {
+						t.Fatalf("origin %v leader %d target %v: final placement %v", origin, leader.StoreId, target, region.GetMeta())
+					}
+				}
+			}
+		}
+	}
+	t.Logf("%d operators executed step by step", cases)
+}
